@@ -4,6 +4,7 @@ CONSTANTS MaxReq = 5
           MaxLeases = 3
           MaxClock = 5
           MaxReconnects = 0
+          OvertakesHeld = FALSE
           AppActsOnHeld = FALSE
           QSize = 0
 INVARIANT TypeOK
